@@ -177,7 +177,7 @@ def r07e(model: Model, rr: RuleResult):
     fi = model.func("bitmap_tables", "make_cbdt_table")
     cfg = cfg_of(fi)
     srt = [st for st in walk_body(fi) if isinstance(st, ast.Assign) and norm(st.targets[0]) == "color_glyphs" and isinstance(st.value, ast.Call) and norm(st.value.func) == "sorted"]
-    wl = [st for st in walk_body(fi) if isinstance(st, ast.While) and norm(st.test) == "color_glyphs"]
+    wl = [st for st in walk_body(fi) if isinstance(st, ast.While) and norm(st.test) in ("color_glyphs", "start < len(color_glyphs)")]
     if srt and "glyph_id" in norm(kwarg(srt[0].value, "key")) and wl and cfg.dominates(cfg.node_for(srt[0]), cfg.node_for(wl[0])):
         rr.ok("glyphs are sorted by glyph id before being split into runs")
     else:
@@ -190,8 +190,16 @@ def r07e(model: Model, rr: RuleResult):
     t = " ".join(norm(st) for st in ast.walk(fi.node) if isinstance(st, ast.Assign))
     if "color_glyph_run = color_glyphs[:end]" in t and "color_glyphs = color_glyphs[end:]" in t:
         rr.ok("run = first `end` glyphs; the rest is processed next (no glyph lost or repeated)")
+    elif "color_glyph_run = color_glyphs[start:end]" in t:
+        # index-walking idiom: the next run must start exactly where this one ended
+        nxt = [st for st in ast.walk(fi.node) if isinstance(st, ast.Assign) and norm(st.targets[0]) == "start" and "end" in norm(st.value)]
+        if nxt and norm(nxt[0].value) == "end":
+            rr.ok("run = glyphs[start:end]; the next run starts at end (no glyph lost or repeated)")
+        else:
+            rr.bad(fi, nxt[0] if nxt else fi.node, f"runs are glyphs[start:end] but the next run starts at {short(nxt[0].value) if nxt else '?'}: the first glyph after every gap "
+                   f"belongs to no strike and has no bitmap", construct=f"make_cbdt_table: next run starts at {short(nxt[0].value) if nxt else '?'}")
     else:
-        rr.bad(fi, fi.node, "run extraction drops or repeats glyphs", construct="make_cbdt_table: slicing")
+        raise AnalysisError("make_cbdt_table: run extraction idiom not recognised")
     mk = find_calls(fi, "_make_cbdt_strike")
     if mk and [norm(a) for a in mk[0].args] == ["config", "ttfont", "data_offset", "color_glyph_run"]:
         rr.ok("each run becomes one strike starting at the running data offset")
@@ -254,9 +262,11 @@ def r07e(model: Model, rr: RuleResult):
 
 # ------------------------------------------------------------------------------------------------ C14
 BT_SEEDS = {"config.ascender": "fu", "config.descender": "fu", "config.width": "fu", "config.upem": "fu/em", "config.bitmap_resolution": "px",
-            "image_data.size[0]": "px", "image_data.size[1]": "px", "ppem": "px/em", "bitmap_pixel_height": "px",
+            "image_data.size[0]": "px", "image_data.size[1]": "px", "*.bitmap.size[0]": "px", "*.bitmap.size[1]": "px", "ppem": "px/em", "bitmap_pixel_height": "px",
             "metrics.line_ascent": "px", "metrics.line_height": "px", "metrics.x_offset": "px", "metrics.y_offset": "px", "line_metrics.ascender": "px"}
 BT_RETS = {"_pixels_to_funits": ("px", "fu"), "_width_in_pixels": "px", "_ppem": "px/em"}
+# declared parameter dimensions (positional) of the helpers, checked at every call site
+BT_PARAMS = {"create": [None, None, "px/em"], "_ppem": [None, "px"], "_pixels_to_funits": [None, "px"]}
 
 
 @RULES.rule("C14", "R14a", "dimensional consistency of bitmap metrics (px, fu, px/em)", floor=11)
@@ -265,7 +275,7 @@ def r14a(model: Model, rr: RuleResult):
              ("make_sbix_table", None), ("_make_cbdt_strike", None)]
     for fn, ret in specs:
         fi = model.func("bitmap_tables", fn)
-        chk = DimChecker(model, fi, BT_SEEDS, BT_RETS, ret=ret,
+        chk = DimChecker(model, fi, dict(BT_SEEDS, **{"strike.ppem": "px/em"}), BT_RETS, ret=ret, params=BT_PARAMS,
                          sinks={"strike.ppem": "px/em", "bitmapSizeTable.ppemX": "px/em", "bitmapSizeTable.ppemY": "px/em",
                                 "line_metrics.ascender": "px", "line_metrics.descender": "px"}).run()
         for c in calls_in(fi):
